@@ -4,7 +4,7 @@
    trees are recomputed by the model from tables of the real hash evaluations) and Merkle/Dense.v (the dense
    tree of novasmt::dense used for transactions under TIP-908, reduced to the same tree; tied by the dense
    cases of the `merkle` stream: real roots and proofs of 0..33 blocks recomputed by the model). *)
-From MelVerif Require Import STF.Model STF.Proofs.Block Merkle.Smt Merkle.Dense.
+From MelVerif Require Import STF.Model STF.Proofs.Block STF.Proofs.ChainHistory Merkle.Smt Merkle.Dense.
 Open Scope N_scope.
 
 (* the header records the scalars of the state, the five roots, and the hash of the parent header *)
@@ -39,6 +39,50 @@ Theorem C07_child_links_to_parent : forall SO rf s hdr txs a u s2 h2,
   h_height h2 = s_height s + 1 /\ h_network h2 = s_network s /\ h_previous h2 = so_header_hash SO hdr.
 Proof. exact child_header_links_to_parent. Qed.
 Print Assumptions C07_child_links_to_parent.
+
+(* ---- whole histories.  A history is a list of batches (a refused batch leaves the state alone) and block
+   boundaries; a boundary seals the block, computes its real header (the roots are any function rf of the state)
+   and opens the next block with that header stored in the history. *)
+Theorem C07_chain_step_def : forall SO rf s o,
+  cstep SO rf s o =
+  match o with
+  | CBatch lh txs => match apply_tx_batch SO s lh txs with Ok s' => s' | _ => s end
+  | CBlock a =>
+    match seal SO s a with
+    | Ok s' => match header_of SO (rf s') s' with Ok h => next_unsealed s' h | _ => s end
+    | _ => s
+    end
+  end.
+Proof. exact cstep_def. Qed.
+Print Assumptions C07_chain_step_def.
+
+(* [Chain SO s]: the history has a header for every lower height; the header stored at height h has height h and the
+   chain's network; the one at height 0 has previous-hash 0 and every other one the hash of the header one below *)
+Theorem C07_chain_def : forall SO s,
+  Chain SO s <->
+  (forall h, h < s_height s -> is_Some (s_history s !! h)) /\
+  (forall h hd, s_history s !! h = Some hd ->
+     h < s_height s /\ h_height hd = h /\ h_network hd = s_network s /\
+     (h = 0 -> h_previous hd = 0) /\
+     (forall p, h <> 0 -> s_history s !! (h - 1) = Some p -> h_previous hd = so_header_hash SO p)).
+Proof. exact chain_def. Qed.
+Print Assumptions C07_chain_def.
+
+Theorem C07_genesis_is_a_chain : forall SO (rf : wstate -> roots) s, s_height s = 0 -> s_history s = ∅ -> Chain SO s.
+Proof. exact genesis_chain. Qed.
+Print Assumptions C07_genesis_is_a_chain.
+
+(* C07: the headers chain together in every reachable state *)
+Theorem C07_every_reachable_history_is_a_chain : forall SO rf ops s, Chain SO s -> Chain SO (fold_left (cstep SO rf) ops s).
+Proof. exact chain_history. Qed.
+Print Assumptions C07_every_reachable_history_is_a_chain.
+
+Theorem C07_reachable_headers_link : forall SO rf ops s h hd p,
+  Chain SO s -> let f := fold_left (cstep SO rf) ops s in
+  s_history f !! (h + 1) = Some hd -> s_history f !! h = Some p ->
+  h_previous hd = so_header_hash SO p /\ h_height hd = h_height p + 1 /\ h_network hd = h_network p.
+Proof. exact reachable_headers_link. Qed.
+Print Assumptions C07_reachable_headers_link.
 
 (* ---- Merkle level (coin, pool, history, stake and pre-TIP-908 transaction trees are novasmt sparse trees).
    [root d m] is the root of the depth-d tree with contents m (a function from key paths to values, [] = absent);
